@@ -153,6 +153,15 @@ def compare(ctx, op, a, b):
         if op == '!=':
             return a is not b
         raise Unsupported('comparison %s on %s, %s' % (op, type(a).__name__, type(b).__name__))
+    if isinstance(a, dict) and isinstance(b, dict) and op in ('==', '!=') and (has_sym(list(a.values())) or has_sym(list(b.values()))):
+        # dicts with concrete keys and symbolic values: equal iff same keys and pointwise equal values
+        if any(isinstance(k, Sym) for k in list(a) + list(b)):
+            raise Unsupported('comparison of dicts with symbolic keys')
+        if set(a) != set(b):
+            return op == '!='
+        parts = [zbool(compare(ctx, '==', a[k], b[k])) for k in a]
+        e = z3.And(*parts) if parts else z3.BoolVal(True)
+        return SBool(e if op == '==' else z3.Not(e))
     if isinstance(a, (tuple, list)) and isinstance(b, (tuple, list)) and (has_sym(a) or has_sym(b)):
         if type(a) != type(b):
             return op == '!='
@@ -172,6 +181,8 @@ def compare(ctx, op, a, b):
 def identical(ctx, a, b):
     if a is b:
         return True
+    if isinstance(a, Builtin) and isinstance(b, Builtin):
+        return a.name == b.name  # `type(x) is str`: a builtin is one object however often it is looked up
     if a is None or b is None:
         if isinstance(a, Sym) and hasattr(a, 'is_none'):
             return a.is_none(ctx)
